@@ -53,6 +53,7 @@ func init() {
 			{Name: fmt.Sprintf("dialer-options-on-dialer-hist-D%d", d-1), Mode: "hist", Reset: kit.ResetGlobals, Cfg: vsched.Config{RandFree: true}, Body: func() { hist(d-1, true) }},
 			{Name: fmt.Sprintf("dialer-options-changed-mid-run-hist-D%d", d-1), Mode: "hist", Reset: kit.ResetGlobals, Cfg: vsched.Config{RandFree: true}, Body: func() { histTune(d-1, true, 1) },
 				NeedCounters: []string{"reconnect-option-changed-while-a-redial-is-owed", "redial-after-refusal", "redial-after-loss"}},
+			{Name: "reconnect-time-set-on-a-running-dialer-takes-effect", Mode: "enum", Reset: kit.ResetGlobals, Body: ReconnectTimeTakesEffect, NeedCounters: []string{"new-reconnect-time-in-effect-after-the-next-attach"}},
 			{Name: "dialer-protocol-refusal-then-takeover", Mode: "enum", Reset: kit.ResetGlobals, Cfg: vsched.Config{RandFree: true}, Body: protocolRefusal,
 				NeedCounters: []string{"redial-after-protocol-refusal", "took-over-after-first-peer-left"}},
 			{Name: "dialer-close-during-dial", Mode: "sched", Bound: map[string]int{"quick": 2, "thorough": 3}[tier], Reset: kit.ResetGlobals, Body: closeDuringDial},
@@ -244,6 +245,74 @@ func hist(depth int, viaDialer bool) { histTune(depth, viaDialer, 0) }
 // redial or closed.  A redial is still always scheduled, never sooner than the smallest reconnect
 // time ever set, traffic resumes, nothing happens after Close.
 func HistTune(depth int, viaDialer bool, tune int) { histTune(depth, viaDialer, tune) }
+
+// ReconnectTimeTakesEffect: a dialer is connected; ReconnectTime is set to a new value (on the dialer
+// or on its socket, larger or smaller, with or without a maximum); the connection is lost and
+// re-established - from that attach on the new value is the delay: when the connection is lost
+// again, the next attempt comes exactly the new reconnect time later (and once more after another
+// cycle).  An accepted value takes effect.
+func ReconnectTimeTakesEffect() {
+	c := cfgs[kit.ChooseFree(len(cfgs))]
+	onSock := kit.ChooseFree(2) == 1
+	nv := []time.Duration{c.min / 2, 2 * c.min, 15 * c.min}[kit.ChooseFree(3)]
+	s, err := xpub.NewSocket()
+	if err != nil {
+		kit.Failf("setup", "NewSocket: %v", err)
+	}
+	ep := vt.Get("rtte")
+	ep.Script(vt.DialOK)
+	d, err := s.NewDialer("vt://rtte", map[string]interface{}{mangos.OptionReconnectTime: c.min, mangos.OptionMaxReconnectTime: c.max, mangos.OptionDialAsynch: c.asynch})
+	if err != nil {
+		kit.Failf("setup", "NewDialer: %s", kit.ErrName(err))
+	}
+	dc := kit.Start("Dial", func() (interface{}, error) { return nil, d.Dial() })
+	kit.Quiesce()
+	if !dc.Done() || dc.Err != nil || ep.NumPipes() != 1 {
+		kit.Failf("setup", "Dial: done=%v %s pipes=%d", dc.Done(), kit.ErrName(dc.Err), ep.NumPipes())
+	}
+	kit.Must("SetOption", func() {
+		var err error
+		if onSock {
+			err = s.SetOption(mangos.OptionReconnectTime, nv)
+		} else {
+			err = d.SetOption(mangos.OptionReconnectTime, nv)
+		}
+		if err != nil {
+			kit.Failf("option-refused", "SetOption(ReconnectTime, %v): %s", nv, kit.ErrName(err))
+		}
+	})
+	if g, err := d.GetOption(mangos.OptionReconnectTime); err != nil || g != nv {
+		kit.Failf("option-not-passed-on", "dialer reports ReconnectTime %v (%s) after %v was set (on the socket: %v)", g, kit.ErrName(err), nv, onSock)
+	}
+	cycle := func(want []time.Duration, what string) {
+		n := len(ep.Dials)
+		p := ep.PipeAt(ep.NumPipes() - 1)
+		p.DropNow()
+		t0 := kit.Now()
+		kit.Quiesce()
+		kit.Sleep(20 * c.min)
+		kit.Quiesce()
+		if len(ep.Dials) != n+1 {
+			kit.Failf("dialer-gave-up", "%s: the connection was lost; %d connection attempt(s) followed within %v", what, len(ep.Dials)-n, 20*c.min)
+		}
+		gap := ep.Dials[n].At - t0
+		ok := false
+		for _, w := range want {
+			ok = ok || gap == w
+		}
+		if !ok {
+			kit.Failf("reconnect-time-not-in-effect", "%s: the next attempt came %v after the loss; ReconnectTime %v was accepted (Get answers it) - want %v (settings: initial %v, maximum %v)", what, gap, nv, want, c.min, c.max)
+		}
+	}
+	// the first loss after the change: the old or the new value (when a new value starts to count is the implementation's business)
+	cycle([]time.Duration{c.min, nv}, "first loss after the change")
+	// every attach after the change starts from the new value
+	cycle([]time.Duration{nv}, "second loss after the change")
+	cycle([]time.Duration{nv}, "third loss after the change")
+	kit.Count("new-reconnect-time-in-effect-after-the-next-attach")
+	kit.Observe("%v sock=%v nv=%v", c, onSock, nv)
+	kit.Must("Close", func() { _ = s.Close() })
+}
 
 func histTune(depth int, viaDialer bool, tune int) {
 	w := &world{c: cfgs[kit.ChooseFree(len(cfgs))], tune: tune}
